@@ -41,6 +41,20 @@ def mirLin (n v : V3) : V3 := v - V3.smul (2 * V3.dot v n / V3.dot n n) n
 /-- `functions.mirror(point, normal, origin)` (after the repair: a pure function) -/
 def mirP (n o p : V3) : V3 := mirLin n (p - o) + o
 
+def absQ (x : Rat) : Rat := if x < 0 then -x else x
+
+/-- `constants.TOL` -/
+def shearTol : Rat := 1 / 10000000
+
+/-- `Point.shear(normal, origin, direction, angle)` / one row of `Array.shear`: the point moves along `direction` by its
+    DISTANCE from the plane `(origin, normal)` — an absolute value — times `cot angle`; a point within `TOL` of the plane
+    stays.  `sn`, `sd` are the witnesses of `|normal|`, `|direction|` (the code normalises both), `c = cot angle`.
+    Shear is not one of the four transformations of C09 (it is not a similarity, and as coded not even affine: both
+    sides of the plane move the same way); it is modelled at the level of points and arrays only. -/
+def shearP (n o d : V3) (sn sd c : Rat) (p : V3) : V3 :=
+  let dist := absQ (V3.dot (p - o) n) / sn
+  if dist > shearTol then p + V3.smul (dist * c / sd) d else p
+
 /-- A transformation as the caller writes it: the origin may be left out. -/
 inductive Tr where
   | translate (d : V3)
@@ -91,7 +105,7 @@ def Heap.get (h : Heap) (i : Nat) : V3 := h.getD i V3.zero
 
 inductive Kind where
   | op | face | angle | spline | oncurve | edge | circle | lcurve | dcurve | icurve
-  | grid | firstpt | face0 | sketchavg | shape | sphere | stack | joint | asm | other
+  | grid | firstpt | face0 | sketchavg | shape | sphere | stack | joint | asm | other | facept3
   deriving DecidableEq, Repr
 
 inductive Ent where
@@ -231,7 +245,7 @@ def shapeLikeCenterV : VEnt → Option V3
 inductive CRule where
   | position | avgRows | zero | curveOf | avgDiscretize | lineMid | circleOrigin | facePoints | opPoints
   | avgOpCenters | partPoint (attr : String) (fromEnd : Nat) | stackOps | avgShapeCenters | gridCorners
-  | firstFacePoint | firstFaceCenter | avgFaceCenters | observed
+  | firstFacePoint | firstFaceCenter | avgFaceCenters | observed | firstFacePoint3
   deriving DecidableEq, Repr
 
 /-- the expression of the source the rule transcribes (bound names `v0, v1, …`) -/
@@ -254,6 +268,7 @@ def CRule.src : CRule → String
   | .firstFaceCenter => "self.faces[0].center"
   | .avgFaceCenters => "np.average([v0.center for v0 in self.faces], axis=0)"
   | .observed => "?"
+  | .firstFacePoint3 => "self.faces[0].points[3].position"
 
 /-- which rule an entity of a kind runs -/
 def ruleOf : Kind → CRule
@@ -275,6 +290,7 @@ def ruleOf : Kind → CRule
   | .face0 => .firstFaceCenter
   | .sketchavg => .avgFaceCenters
   | .other => .observed
+  | .facept3 => .firstFacePoint3
 
 /-- evaluation of a rule on a node (`oc`: the observed centre for entities without a modelled rule);
     `curveOf` is resolved by `centerV` -/
@@ -306,6 +322,7 @@ def CRule.eval (oc : Option V3) (r : CRule) (e : VEnt) : Option V3 :=
   | .firstFaceCenter => (ch.head?).map faceCenterV
   | .avgFaceCenters => some (avg (ch.map faceCenterV))
   | .observed => oc
+  | .firstFacePoint3 => (ch.head?).bind (fun f0 => (facePtsV f0)[3]?)
 
 /-- centre of the curve an `OnCurve`/`Spline` edge holds -/
 def curveCenterV (oc : Option V3) (c : VEnt) : Option V3 :=
@@ -387,7 +404,7 @@ def schema : List Row := [
   ⟨"Point", [], [one "self" .any]⟩,
   ⟨"QuarterSplineRing", [.other], [many "super().parts" .face 1, one "_center" .pt]⟩,
   ⟨"Shape", [.shape], [many "operations" .op 1]⟩,
-  ⟨"Sketch", [.grid, .firstpt, .face0, .sketchavg, .other], [many "faces" .face 1]⟩,
+  ⟨"Sketch", [.grid, .firstpt, .face0, .sketchavg, .other, .facept3], [many "faces" .face 1]⟩,
   ⟨"Spline", [.spline], [one "curve" .curve]⟩,
   ⟨"Stack", [.stack], [many "shapes" .shape 1]⟩]
 
@@ -434,10 +451,10 @@ def centerRows : List (String × CRule) := [
   ("EighthSphere", ruleOf .sphere), ("Face", ruleOf .face), ("Grid", ruleOf .grid), ("JointBase", ruleOf .joint),
   ("LineCurve", ruleOf .lcurve), ("MappedSketch", ruleOf .sketchavg), ("OnCurve", ruleOf .oncurve),
   ("OneCoreDisk", ruleOf .face0), ("Operation", ruleOf .op), ("Point", .position), ("Shape", ruleOf .shape),
-  ("Spline", ruleOf .spline), ("Stack", ruleOf .stack), ("WrappedDisk", ruleOf .face0)]
+  ("Spline", ruleOf .spline), ("SplineRound", ruleOf .facept3), ("Stack", ruleOf .stack), ("WrappedDisk", ruleOf .face0)]
 
 /-- classes whose `center` is not transcribed (abstract, or the observed value is used) -/
-def observedCenters : List String := ["ElementBase", "Oval", "PointCurveBase", "QuarterSplineRing", "Sketch", "SplineRound"]
+def observedCenters : List String := ["ElementBase", "Oval", "PointCurveBase", "QuarterSplineRing", "Sketch"]
 
 /-- a real object of class row `P` (the class whose `parts` runs) and centre class `C` (the class whose `center`
     runs) may carry kind `k` -/
@@ -613,14 +630,14 @@ def kindOfStr : String → Option Kind
   | "oncurve" => some .oncurve | "edge" => some .edge | "circle" => some .circle | "lcurve" => some .lcurve
   | "dcurve" => some .dcurve | "icurve" => some .icurve | "grid" => some .grid | "firstpt" => some .firstpt | "face0" => some .face0
   | "sketchavg" => some .sketchavg | "shape" => some .shape | "sphere" => some .sphere | "stack" => some .stack
-  | "joint" => some .joint | "asm" => some .asm | "other" => some .other
+  | "joint" => some .joint | "asm" => some .asm | "other" => some .other | "facept3" => some .facept3
   | _ => none
 
 def Kind.str : Kind → String
   | .op => "op" | .face => "face" | .angle => "angle" | .spline => "spline" | .oncurve => "oncurve"
   | .edge => "edge" | .circle => "circle" | .lcurve => "lcurve" | .dcurve => "dcurve" | .icurve => "icurve"
   | .grid => "grid" | .firstpt => "firstpt" | .face0 => "face0" | .sketchavg => "sketchavg" | .shape => "shape" | .sphere => "sphere"
-  | .stack => "stack" | .joint => "joint" | .asm => "asm" | .other => "other"
+  | .stack => "stack" | .joint => "joint" | .asm => "asm" | .other => "other" | .facept3 => "facept3"
 
 /-- post-order token of a tree: `P<i>`, `D<i>`, `A<i;j;…>`, `N:<kind>:<attr>:<number of parts>` -/
 def parseTok (st : List Ent) (tok : String) : Option (List Ent) :=
@@ -763,8 +780,21 @@ def handleWf (args : List String) : Option String :=
   | some ([_], some bad) => some ("bad " ++ bad)
   | _ => none
 
+/-- `c09.shear <n> <o> <d> <sn> <sd> <cot> <point…>` → images (witnesses checked to 1e-9 relative) -/
+def handleShear (args : List String) : Option String :=
+  match args with
+  | n :: o :: d :: sn :: sd :: c :: pts => do
+      let n ← parseV3? n; let o ← parseV3? o; let d ← parseV3? d
+      let sn ← parseRat? sn; let sd ← parseRat? sd; let c ← parseRat? c
+      let ps ← pts.mapM parseV3?
+      let ok (s : Rat) (v : V3) : Bool := s > 0 && absQ (s * s - V3.dot v v) ≤ (1 / 1000000000) * (1 + V3.dot v v)
+      if !(ok sn n && ok sd d) then some "bad-witness" else
+      some ("ok " ++ " ".intercalate (ps.map (fun p => (shearP n o d sn sd c p).toStr)))
+  | _ => none
+
 def handle (op : String) (args : List String) : Option String :=
   match op with
+  | "c09.shear" => handleShear args
   | "c09.run" => handleRun args
   | "c09.prim" => handlePrim args
   | "c09.wf" => handleWf args
